@@ -594,6 +594,11 @@ MUTANTS = [
          what="D29 again: a Query is forwarded while the server is in COPY mode",
          old='''                if server.in_copy_mode() && !matches!(code, 'd' | 'c' | 'f' | 'H') {''',
          new='''                if server.in_copy_mode() && matches!(code, 'X') {'''),
+    dict(id="c03-copyin-keeps-data-available", prop="C03", file="src/server.rs", expect="C03-R4",
+         what="D30 again: CopyInResponse leaves data_available set",
+         old='''                    // The server waits for the client now, whatever came before in this reply.
+                    self.data_available = false;
+''', new=''''''),
     # ------------------------------------------------------------------ C12
     dict(id="c12-raw-value", prop="C12", file="src/server.rs", expect="C12-R2",
          what="value interpolated without escaping again",
